@@ -27,7 +27,23 @@ DRIFT = ('drift', 'rootbox')
 def _tlc(args):
     name, cfg, workers, timeout, delay = args
     time.sleep(delay)
+    t0 = time.time()
+    # developer aid for mutation experiments only (TLC's output does not depend on /repo): never set in normal runs
+    cache = os.environ.get('C14_TLC_CACHE')
+    key = None
+    if cache:
+        import hashlib, pickle
+        h = hashlib.sha1((open(vf.SPEC + '/RadixTree.tla').read() + open(vf.SPEC + '/' + cfg).read()).encode()).hexdigest()[:16]
+        key = '%s/%s.%s.pickle' % (cache, cfg, h)
+        if os.path.exists(key):
+            r = pickle.load(open(key, 'rb'))
+            r.wall = 0.0
+            return name, cfg, r
     r = vf.tlc('RadixTree', cfg, workers=workers, timeout=timeout)
+    r.wall = time.time() - t0
+    if key and not r.error and not r.violation:
+        os.makedirs(cache, exist_ok=True)
+        pickle.dump(r, open(key, 'wb'))
     return name, cfg, r
 
 
@@ -46,7 +62,7 @@ def run_tlc(chk, jobs):
             chk.coverage['states'] = chk.coverage.get('states', 0) + r.distinct
             chk.coverage['transitions'] = chk.coverage.get('transitions', 0) + r.generated
             chk.coverage['tlc_' + name] = {'cfg': cfg, 'distinct_states': r.distinct, 'printed_cases': len(set(r.behaviours))}
-            vf.log('[C14] TLC %-6s %-22s %8d states %6d cases' % (name, cfg, r.distinct, len(r.behaviours)))
+            vf.log('[C14] TLC %-6s %-22s %8d states %6d cases %4.0fs' % (name, cfg, r.distinct, len(r.behaviours), r.wall))
             out[name] = r
     return out
 
@@ -162,9 +178,14 @@ def main(tier):
             ('trav', 'RadixTree_trav5.cfg' if thorough else 'RadixTree_trav.cfg', 8 if thorough else 4, 2400),
             ('tree', 'RadixTree_tree.cfg', 3, 900), ('big', 'RadixTree_bigT.cfg' if thorough else 'RadixTree_big.cfg', 4, 1500),
             ('2d', 'RadixTree_2dT.cfg' if thorough else 'RadixTree_2d.cfg', 3, 900),
-            ('build', 'RadixTree_build6.cfg' if thorough else 'RadixTree_build.cfg', 3, 900)]
+            ('build', 'RadixTree_build6.cfg', 3, 900)]
     if thorough:
         jobs.insert(2, ('genC', 'RadixTree_genC.cfg', 6, 2400))
+    # the seeded large cases do not depend on TLC: run them meanwhile (one driver process per group)
+    rc = rand_cases(tier, 'seq')
+    groups = [rc[i::6] for i in range(6)]
+    pool = ThreadPoolExecutor(max_workers=6)
+    rand_futs = [pool.submit(run_cases, chk, g, 'rand%d' % i) for i, g in enumerate(groups) if g]
     t0 = time.time()
     res = run_tlc(chk, jobs)
     vf.log('[C14] TLC phase %.0fs' % (time.time() - t0))
@@ -188,19 +209,21 @@ def main(tier):
         raise vf.ToolError('vacuity: duplicates/degenerate/large classes missing: %s' % [dup_codes, same_box, degenerate, over128])
     t0 = time.time()
     total, nontriv = run_cases(chk, cases, 'tlc')
-    rc = rand_cases(tier, 'seq')
-    n2, nt2 = run_cases(chk, rc, 'rand', jobs=6)
-    total += n2
+    for f in rand_futs:
+        total += f.result()[0]
     variants = ['seq']
     if thorough:
         vf.build('par')
         variants.append('par')
         n3, nt3 = run_cases(chk, cases, 'tlc', variant='par')
         rcp = rand_cases(tier, 'par')
-        n4, nt4 = run_cases(chk, rcp, 'rand', variant='par', jobs=4)
-        total += n3 + n4
+        futs = [pool.submit(run_cases, chk, g, 'rand%d' % i, 'par') for i, g in enumerate([rcp[i::4] for i in range(4)]) if g]
+        total += n3 + sum(f.result()[0] for f in futs)
         rc = rc + rcp
     vf.log('[C14] driver phase %.0fs' % (time.time() - t0))
+    chk.coverage['drift_count'] = len(chk.drift)
+    for d in chk.drift[:3]:
+        vf.log('DRIFT: (model and implementation differ where the property observable is fine; %d in total) %s' % (len(chk.drift), d[:300]))
     mid = [c for c in cases if c['kind'] == 'bvh3' and c['n'] == 4]
     samples = [case_text(mid[len(mid) // 2]) + ' expBox=%s expSelf=%s' % (mid[len(mid) // 2]['expBox'], mid[len(mid) // 2]['expSelf']),
                case_text([c for c in cases if c['kind'] == 'rects'][-1]), case_text([c for c in cases if c['kind'] == 'points'][0]),
